@@ -28,15 +28,17 @@ Theorem C19_predict_tucker_contraction : forall (F : Type) (Op : fops F),
 Proof. exact @predict_tucker_contraction. Qed.
 Print Assumptions C19_predict_tucker_contraction.
 
-(* vec_W_ is the vectorisation of weight_tensor_ *)
-Theorem C19_cp_stored_vec : forall (F : Type) (Op : fops F) (w : tensor F) (fs : list (tensor F)),
+(* vec_W_ is the vectorisation of weight_tensor_ -- DEFINITIONAL: cp_fit_tail / tucker_fit_tail are defined that way (the statements
+   hold by reflexivity); their content is "the model stores it this way", the tie to cp_to_vec / tucker_to_vec of the source is the
+   correspondence (KFitCP / KFitTK) *)
+Theorem C19_cp_stored_vec_definitional : forall (F : Type) (Op : fops F) (w : tensor F) (fs : list (tensor F)),
   vec_W_ (cp_fit_tail Op w fs) = tensor_to_vec (weight_tensor_ (cp_fit_tail Op w fs)).
 Proof. exact @cp_stored_vec. Qed.
-Print Assumptions C19_cp_stored_vec.
-Theorem C19_tucker_stored_vec : forall (F : Type) (Op : fops F) (G : tensor F) (fs : list (tensor F)),
+Print Assumptions C19_cp_stored_vec_definitional.
+Theorem C19_tucker_stored_vec_definitional : forall (F : Type) (Op : fops F) (G : tensor F) (fs : list (tensor F)),
   vec_W_ (tucker_fit_tail Op G fs) = tensor_to_vec (weight_tensor_ (tucker_fit_tail Op G fs)).
 Proof. exact @tucker_stored_vec. Qed.
-Print Assumptions C19_tucker_stored_vec.
+Print Assumptions C19_tucker_stored_vec_definitional.
 
 (* fitted regressors predict with the reconstruction of the factors they expose *)
 Theorem C19_cp_regressor_predict_factors : forall (F : Type) (Op : fops F),
@@ -135,43 +137,52 @@ Theorem C19_plsr_shift_invariance : forall
 Proof. exact plsr_shift_invariance. Qed.
 Print Assumptions C19_plsr_shift_invariance.
 
-(* ---- CP_PLSR.fit with the inner power iteration modelled (fit_cp): sqrt, the SVD initialisation (a function of Z),
+(* ---- CP_PLSR.fit with the inner power iteration modelled (cp_plsr_fit = fit_cp guarded by the budget test of the source): sqrt, the SVD initialisation (a function of Z),
    the least-squares solver (a function of the normal-equation data) and the tolerance are arbitrary ---- *)
 
-(* every non-sample loading vector and every Y loading vector is the result of a normalisation v / norm(v) *)
+(* fit raises exactly on the budget n_iter_max = 0 with at least one component (as the source: comp_Y_factors_1 unbound) *)
+Theorem C19_cp_plsr_fit_defined : forall (F : Type) (Op : fops F) (sqrtF : F -> F)
+  (init : tensor F -> list (tensor F)) (ne_solve : list (list F) -> list F -> list F) (tol : F) (n_iter ncomp : nat) (X Y : tensor F),
+  cp_plsr_fit Op sqrtF init ne_solve tol n_iter ncomp X Y = Err <-> (n_iter = 0 /\ 0 < ncomp).
+Proof. exact @cp_plsr_fit_defined. Qed.
+Print Assumptions C19_cp_plsr_fit_defined.
+
+(* every non-sample loading vector and every Y loading vector is the result of a normalisation v / norm(v) -- STRUCTURAL: immediate
+   from the model writing normalize(..) into every slot (induction over the mode sweep, the passes and the components); its use is
+   as the lemma behind C19_plsr_unit_norm *)
 Theorem C19_plsr_loadings_normalized : forall (F : Type) (Op : fops F) (sqrtF : F -> F)
   (init : tensor F -> list (tensor F)) (ne_solve : list (list F) -> list F -> list F) (tol : F)
-  (n_iter ncomp : nat) (X Y : tensor F) (c : comp),
-  In c (comps (fit_cp Op sqrtF init ne_solve tol n_iter ncomp X Y)) ->
+  (n_iter ncomp : nat) (X Y : tensor F) (r : plsr) (c : comp),
+  cp_plsr_fit Op sqrtF init ne_solve tol n_iter ncomp X Y = Ok r -> In c (comps r) ->
   Forall (is_normalized Op sqrtF) (c_load c) /\ is_normalized Op sqrtF (c_yload c).
-Proof. exact @plsr_loadings_normalized. Qed.
+Proof. exact @plsr_fit_loadings_normalized. Qed.
 Print Assumptions C19_plsr_loadings_normalized.
 
-(* over R: a normalised non-zero vector has unit norm; hence every loading has unit norm unless it is the
-   (degenerate) normalisation of the zero vector, where the implementation produces NaN *)
+(* over R: a normalised non-zero vector has unit norm; hence, without any hypothesis on the output, every loading has squared norm 1
+   or 0, the latter only as the (degenerate) normalisation of the zero vector, where the implementation produces NaN *)
 Theorem C19_normalize_unit : forall v : tensor R, (0 < sumsq Rops v)%R -> sumsq Rops (normalize Rops sqrt v) = 1%R.
 Proof. exact normalize_unit_pos. Qed.
 Print Assumptions C19_normalize_unit.
 
 Theorem C19_plsr_unit_norm : forall (init : tensor R -> list (tensor R)) (ne_solve : list (list R) -> list R -> list R)
-  (tol : R) (n_iter ncomp : nat) (X Y : tensor R) (c : comp),
-  In c (comps (fit_cp Rops sqrt init ne_solve tol n_iter ncomp X Y)) ->
-  (forall l : tensor R, In l (c_load c) -> sumsq Rops l <> 0%R -> sumsq Rops l = 1%R) /\
-  (sumsq Rops (c_yload c) <> 0%R -> sumsq Rops (c_yload c) = 1%R).
-Proof. exact plsr_unit_norm. Qed.
+  (tol : R) (n_iter ncomp : nat) (X Y : tensor R) (r : plsr) (c : comp),
+  cp_plsr_fit Rops sqrt init ne_solve tol n_iter ncomp X Y = Ok r -> In c (comps r) ->
+  (forall l : tensor R, In l (c_load c) -> sumsq Rops l = 1%R \/ sumsq Rops l = 0%R) /\
+  (sumsq Rops (c_yload c) = 1%R \/ sumsq Rops (c_yload c) = 0%R).
+Proof. exact plsr_fit_unit_norm. Qed.
 Print Assumptions C19_plsr_unit_norm.
 
 (* adding a constant tensor to every sample of X and a constant vector to every row of Y: same loadings, scores,
    coefficients; predictions of shifted new data = predictions + offset (instance of C19_plsr_shift_invariance) *)
 Corollary C19_plsr_cp_shift_invariance : forall (init : tensor R -> list (tensor R)) (ne_solve : list (list R) -> list R -> list R)
-  (tol : R) (n_iter ncomp : nat) (X Y c d : tensor R) (n : nat) (sx : list nat) (m : nat),
+  (tol : R) (n_iter ncomp : nat) (X Y c d : tensor R) (n : nat) (sx : list nat) (m : nat) (r : plsr),
   shape X = n :: sx -> shape Y = [n; m] -> 0 < n ->
-  let p := fit_cp Rops sqrt init ne_solve tol n_iter ncomp X Y in
-  let p' := fit_cp Rops sqrt init ne_solve tol n_iter ncomp (shift Rops X c) (shift Rops Y d) in
-  comps p' = comps p /\ loadings p' = loadings p /\ fitted_scores p' = fitted_scores p /\
+  cp_plsr_fit Rops sqrt init ne_solve tol n_iter ncomp X Y = Ok r ->
+  exists r', cp_plsr_fit Rops sqrt init ne_solve tol n_iter ncomp (shift Rops X c) (shift Rops Y d) = Ok r' /\
+  comps r' = comps r /\ loadings r' = loadings r /\ fitted_scores r' = fitted_scores r /\
   forall Xn i o, sshape Xn = sx -> i < nsamp Xn -> o < m ->
-    tget Rops (fit_predict Rops p' (shift Rops Xn c)) [i; o] = (tget Rops (fit_predict Rops p Xn) [i; o] + tget Rops d [o])%R.
-Proof. exact plsr_cp_shift_invariance. Qed.
+    tget Rops (fit_predict Rops r' (shift Rops Xn c)) [i; o] = (tget Rops (fit_predict Rops r Xn) [i; o] + tget Rops d [o])%R.
+Proof. exact plsr_fit_shift_invariance. Qed.
 Print Assumptions C19_plsr_cp_shift_invariance.
 
 (* re-ordering the samples of X and Y consistently: means, loadings (X and Y side), coefficients and predictions
@@ -180,10 +191,10 @@ Print Assumptions C19_plsr_cp_shift_invariance.
 Theorem C19_plsr_perm_equivariance : forall (F : Type) (Op : fops F), is_ring Op ->
   forall (sqrtF : F -> F) (init : tensor F -> list (tensor F)) (ne_solve : list (list F) -> list F -> list F) (tol : F)
     (p : list nat) (n : nat), Permutation p (seq 0 n) ->
-  forall (n_iter ncomp : nat) (X Y : tensor F) (sx : list nat) (m : nat),
+  forall (n_iter ncomp : nat) (X Y : tensor F) (sx : list nat) (m : nat) (r : plsr),
   shape X = n :: sx -> shape Y = [n; m] -> 0 < m ->
-  let r := fit_cp Op sqrtF init ne_solve tol n_iter ncomp X Y in
-  let r' := fit_cp Op sqrtF init ne_solve tol n_iter ncomp (perm_samples Op p X) (perm_samples Op p Y) in
+  cp_plsr_fit Op sqrtF init ne_solve tol n_iter ncomp X Y = Ok r ->
+  exists r', cp_plsr_fit Op sqrtF init ne_solve tol n_iter ncomp (perm_samples Op p X) (perm_samples Op p Y) = Ok r' /\
   X_mean_ r' = X_mean_ r /\ Y_mean_ r' = Y_mean_ r /\
   loadings r' = loadings r /\
   map (c_yload (F:=F)) (comps r') = map (c_yload (F:=F)) (comps r) /\
@@ -191,7 +202,7 @@ Theorem C19_plsr_perm_equivariance : forall (F : Type) (Op : fops F), is_ring Op
   fitted_scores r' = map (pick Op n p) (fitted_scores r) /\
   map (c_yscore (F:=F)) (comps r') = map (pick Op n p) (map (c_yscore (F:=F)) (comps r)) /\
   (forall Xn : tensor F, fit_predict Op r' Xn = fit_predict Op r Xn).
-Proof. exact @plsr_perm_equivariance. Qed.
+Proof. exact @plsr_fit_perm_equivariance. Qed.
 Print Assumptions C19_plsr_perm_equivariance.
 
 (* ---- the iteration of CPRegressor.fit / TuckerRegressor.fit around the block updates (arbitrary `sweep`, norm and
@@ -415,3 +426,13 @@ Example C19_tk_phi_nonvacuous :
   lhs = fsum_idx Zops [2; 2] (fun J => fmul Zops (tget Zops X (1 :: J)) (fsum_idx Zops [2; 1] (fun K => fmul Zops (tget Zops G K) (tk_coeff Zops fs J K)))) /\
   lhs <> 0%Z.
 Proof. cbv zeta. repeat split; try (vm_compute; reflexivity). vm_compute. discriminate. Qed.
+
+(* cp_plsr_fit: the budget 0 is rejected, a positive budget yields the fit of the Example above *)
+Example C19_cp_plsr_fit_nonvacuous :
+  let X := mk [3; 2; 2] [4; -1; 0; 2; -3; 5; 1; 1; 2; 0; -2; -6]%Z in
+  let Y := mk [3; 2] [1; 0; -2; 3; 4; -1]%Z in
+  let init := fun _ : tensor Z => [mk [2] [1; 0]%Z; mk [2] [0; 1]%Z] in
+  cp_plsr_fit Zops Z.sqrt init (fun _ b => b) 0%Z 0 1 X Y = Err /\
+  cp_plsr_fit Zops Z.sqrt init (fun _ b => b) 0%Z 0 0 X Y <> Err /\
+  exists r, cp_plsr_fit Zops Z.sqrt init (fun _ b => b) 0%Z 2 1 X Y = Ok r /\ length (comps r) = 1.
+Proof. cbv zeta. split; [reflexivity|]. split; [vm_compute; discriminate|]. eexists. split; [reflexivity | vm_compute; reflexivity]. Qed.
